@@ -8,6 +8,10 @@
 //     instruction count N and event log, then once per instruction position n in 1..N (all of them when N <= 400, a
 //     sample of 400 otherwise) on a fresh Runtime with Interrupt(id) issued through VerifAtStep right before instruction
 //     n.  Monitors: det.go (M1..M7).
+//     Programs include "built-in-invoked user code" (hooks.go: ~80 templates — thenables / promise-likes whose then,
+//     constructor, @@species are getters with bodies, awaited / returned in the first segment of async functions or handed
+//     to Promise.resolve/all/race/any/allSettled and executor resolve; ToPrimitive, iteration, JSON, Proxy, Reflect, RegExp
+//     protocol, species hooks reached from inside natives); evidence set det_builtin_x_callback_kind = built-in > callback kind.
 //   - concurrent part (1 of 4 cases): conc.go — runner + 1..3 interrupter goroutines on one Runtime; strict histories
 //     (<= 40 ops) are checked for linearizability with porcupine against the flag model, storm histories only against
 //     schedule-independent safety monitors; every history ends with the reuse battery.
@@ -136,6 +140,47 @@ try {
   log('f:5'); //@finally
 }
 log('s:6');`},
+	{"async-first-segment-await-then-getter", "program", `var t1 = { get then() {
+  log('s:1'); //@callback,cb:await>then-getter
+  log('s:2'); //@callback,cb:await>then-getter
+  return undefined; //@callback,cb:await>then-getter
+} };
+var a1 = async function () {
+  try { //@async
+    log('s:3'); //@async,try
+    await t1; //@async,try
+    log('s:4'); //@async,try,job
+  } catch (e) { //@async,job
+    log('c:5'); //@async,catch,job
+  } finally { //@async,job
+    log('f:6'); //@async,finally,job
+  } //@async,job
+};
+Promise.resolve().then(function () {
+  log('s:7'); //@job
+});
+a1();
+log('s:8');`},
+	{"async-first-segment-return-constructor-getter", "program", `var p1 = Promise.resolve(1);
+Object.defineProperty(p1, 'constructor', { get: function () {
+  log('s:1'); //@callback,cb:async-return>constructor-getter
+  return Promise; //@callback,cb:async-return>constructor-getter
+} });
+var t1 = { get then() {
+  log('s:2'); //@callback,cb:async-return>then-getter
+  return function (res) { //@callback,cb:async-return>then-getter
+    log('s:3'); //@callback,job,cb:async-return>then-call
+    res(1); //@callback,job,cb:async-return>then-call
+  }; //@callback,cb:async-return>then-getter
+} };
+var a1 = async function () {
+  log('s:4'); //@async
+  return p1; //@async
+};
+var a2 = async () => t1;
+a1();
+a2();
+log('s:5');`},
 }
 
 var (
